@@ -62,6 +62,8 @@ type DiffSeams struct {
 	SourceSlice *Slicer           // short reads on the new-build pool
 	Yield       func(site string) // park points in pool reads and output writes
 	Ctx         context.Context
+	EOFWith     bool // new-build pool readers deliver io.EOF together with the last bytes
+	SigViaFile  bool // the old build's signature is read back from a signature file (build-chain workflow)
 }
 
 // DiffResult is what a diff run produced.
@@ -102,7 +104,21 @@ func Diff(oldDir, newDir string, comp *pwr.CompressionSettings, seams DiffSeams)
 		res.Err = fmt.Errorf("ComputeSignature(old): %w", err)
 		return res
 	}
-	sp := &Pool{Inner: fspool.New(sourceContainer, newDir), Name: "srcpool", Slice: seams.SourceSlice, Yield: seams.Yield}
+	if seams.SigViaFile {
+		// what a build chain does: the signature written next to the previous patch is read back
+		src := seeksource.FromBytes(SigBytes(targetContainer, targetSig, &pwr.CompressionSettings{Algorithm: pwr.CompressionAlgorithm_NONE}))
+		if _, rerr := src.Resume(nil); rerr != nil {
+			res.Err = rerr
+			return res
+		}
+		si, rerr := pwr.ReadSignature(ctx, src)
+		if rerr != nil {
+			res.Err = fmt.Errorf("ReadSignature(old): %w", rerr)
+			return res
+		}
+		targetSig = si.Hashes
+	}
+	sp := &Pool{Inner: fspool.New(sourceContainer, newDir), Name: "srcpool", Slice: seams.SourceSlice, Yield: seams.Yield, EOFWith: seams.EOFWith}
 	res.SourcePool = sp
 	pw := &Writer{Name: "patch", Yield: seams.Yield}
 	sw := &Writer{Name: "sig", Yield: seams.Yield}
